@@ -499,7 +499,7 @@ func plainStructField(f FD) bool {
 
 var (
 	strPool = []string{"", "a", "${x}", "a.b", "a,b", "{x}", "$", "[1]", "1", "true", " pad ", "null", "$$", "${", "}", "x:y", "-1", "é"}
-	rePool  = []string{"", "a.*b$", "^[0-9]+", `\$\{x\}`, "a,b", "[a-c]{2}"}
+	rePool  = []string{"", "a.*b$", "^[0-9]+", `\$\{x\}`, "a,b", "[a-c]{2}", "^ERROR ", " ", "\\d+\n", " a", "\tb ", "x  "}
 	keyPool = []string{"k", "j", "a b", "$", "x,y", "K", "é"}
 )
 
